@@ -809,23 +809,27 @@ PROPS = {
                     "encode→decode must return the canonical spelling within 255 octets, encoder and parsers must accept the same strings.",
     ),
     "C02": dict(
-        level="proof", module="Rsdns.Props.C02",
-        technique="Lean 4 theorems (header / flag word / OPT / question / record-header decode to exactly the encoded values for every legal name layout, section by running counters) + ground-truth transcript written from the semantic message",
-        level_text="Proved for every message and every legal layout of the names involved (any mix of in-place labels and backward "
-                   "compression pointers): the header is six big-endian fields in wire order, the flag accessors are the RFC 1035 bit "
-                   "fields, the OPT accessors the RFC 6891 split of CLASS/TTL, a question decodes to (name, QTYPE, QCLASS), a record "
-                   "header to (owner, TYPE, CLASS, TTL, RDLENGTH, offsets) with the section the running counters prescribe "
-                   "(C09.header_attribution) — for every reader instantiation. On the implementation, well-formed messages are "
-                   "generated from a semantic description (any id/flags, 0..3 questions, the 17 data types, OPT, unknown types and "
-                   "classes, three compression modes) and the transcripts of MessageReader and MessageIterator are compared field by "
-                   "field with the transcript written from the description.",
-        level_note="PARTIAL proof: the per-type RDATA *values* and the whole-message induction (`decode_wellformed`) are decided by the "
-                   "ground-truth oracle + correspondence; exact RDATA consumption is C04. QTYPE-only codes 252..255 are not generated "
-                   "as record types. Trusted: Lean kernel; model of reader.rs/records.rs (validated by the `truth`/`views` streams); "
-                   "tools/extract.py for the bit expressions; the generator's encoder (harness/src/streams/msggen.rs).",
+        level="proof", module="Rsdns.Props.C02", modules=["Rsdns.Props.C02", "Rsdns.Props.C02Message"],
+        technique="Lean 4 theorem `decode_wellformed` (one linear pass over ANY well-formed message returns exactly the encoded header, questions and records, for every legal name layout) + item-level decode theorems + ground-truth transcript written from the semantic message",
+        level_text="Proved for every well-formed message (specification `MsgAt`: any id/flags/counts, any number of questions, records "
+                   "of the 17 data types, OPT and unknown types/classes in any section, every name — owners and names inside RDATA — in "
+                   "any legal mix of in-place labels and backward compression pointers): the linear pass `Reader.pass` (the function the "
+                   "driver prints and the correspondence compares with the real MessageReader) returns exactly the encoded header, "
+                   "questions and records — owner, TYPE, CLASS, TTL, RDLENGTH, offsets, section by the running counters, every RDATA "
+                   "field of the 17 formats, the OPT fields, raw bytes of unknown types — in wire order, ends without error and reports "
+                   "nothing else (no question, no record left; a further record call answers ReaderDone). Item-level theorems: "
+                   "flags_layout (RFC 1035 bit fields of the source-extracted getters), opt_layout (RFC 6891), header_fields, "
+                   "question_decode, record_header_decode (all three header calls), rdata_decode (17 formats). On the implementation, "
+                   "well-formed messages are generated from a semantic description and the transcripts of MessageReader and "
+                   "MessageIterator are compared field by field with the transcript written from the description.",
+        level_note="The whole-message theorem is about the MessageReader API; the MessageIterator API (records(), questions(), "
+                   "question()) is decided by the ground-truth oracle + correspondence (`truth`, `views`), not by a theorem. QTYPE-only "
+                   "codes 252..255 are not generated as record types. Trusted: Lean kernel; model of reader.rs/records.rs (validated "
+                   "by the `truth`/`views` streams); tools/extract.py for the bit expressions; the generator's encoder "
+                   "(harness/src/streams/msggen.rs) for the ground truth.",
         streams=[dict(name="truth"), dict(name="views", quick=8000)],
-        explanation="C02: flags_layout, opt_layout, header_fields, question_decode, record_header_decode; stream `truth` "
-                    "(expected transcript from the semantic message) + `views`.",
+        explanation="C02: decode_wellformed (Props/C02Message.lean, non-vacuity example included), flags_layout, opt_layout, "
+                    "header_fields, question_decode, record_header_decode, rdata_decode; stream `truth` + `views`.",
     ),
     "C09": dict(
         level="proof", module="Rsdns.Props.C09",
@@ -839,14 +843,15 @@ PROPS = {
                    "offset is known (doc_known), hence seek succeeds (seek_known). On the implementation a specification automaton "
                    "replays each generated history against ONE linear pass of the same message on a fresh reader and checks every "
                    "returned item, every count and every seek outcome.",
-        level_note="PARTIAL proof: the history theorem is stated over the tracker at the positions of the linear pass (`Lay`); that the "
-                   "cursor of the byte-level reader stands at those positions after each call (kind-independence of positions, which "
-                   "follows from C08.skip_of_read and C04.next_after_data) is decided by the automaton + correspondence, not yet "
-                   "composed into one theorem; 'record offsets grow' is checked on the linear pass by the automaton. Trusted: Lean "
-                   "kernel; model of reader.rs/section_tracker.rs (validated by `seekhist`/`reader`); tools/spec_c09.py.",
+        level_note="The history theorem (doc_known) is stated over the tracker at the positions of the linear pass (`Lay`); "
+                   "pair_follows_pass ties those positions to the bytes: every successful header/data call pair of the real reader, in "
+                   "any of its instantiations, moves from index i to i+1 of the pass and returns the marker of record i. PARTIAL: the "
+                   "two are not yet folded into one induction over `Reader.run` histories (questions phase and header-time seek "
+                   "included); 'record offsets grow' is checked on the linear pass by the automaton. Trusted: Lean kernel; model of "
+                   "reader.rs/section_tracker.rs (validated by `seekhist`/`reader`); tools/spec_c09.py.",
         streams=[dict(name="seekhist"), dict(name="reader", quick=8000)],
         explanation="C09: done_sticky, *_error_latches, seek_error, seek_known, exhausted_reports_done, header_attribution, "
-                    "data_advances, last_question, seek_index, seek_lands, doc_known, learned_offsets_true; stream `seekhist`.",
+                    "data_advances, last_question, seek_index, seek_lands, doc_known, learned_offsets_true, pair_follows_pass; stream `seekhist`.",
     ),
     "C06": dict(
         level="proof", module="Rsdns.Props.C06",
